@@ -411,7 +411,18 @@ fn totals_json(t: &Totals) -> Value {
         .iter()
         .map(|(n, set)| (n.to_string(), json!(format!("{}/{}", set.len(), factorial(*n)))))
         .collect();
+    // every fault kind the scheduler can draw; those that never fired are listed, not hidden
+    // (timed waits, crash points and overlapping launches only fire when the program under test
+    // waits with a time-out or touches durable state, which gram on the unchanged tree never does)
+    const ALL_KINDS: &[&str] = &[
+        "entropy_reseed", "entropy_extreme", "getrandom_short", "getrandom_eintr", "getrandom_no_insecure",
+        "same_key_faulty_delivery", "layout_skew", "same_key_displaced_layout", "clock_and_pid_change",
+        "same_key_other_clock_and_pid", "same_thread_repeat", "same_key_repeated_on_thread", "thread_stall",
+        "history_prior_edit", "history_prior_crash", "overlapping_launch_stalled", "timed_wait_scaled", "file_short_read",
+    ];
+    let never: Vec<&str> = ALL_KINDS.iter().copied().filter(|k| !t.fired.contains_key(*k)).collect();
     json!({
+        "fault_kinds_configured_but_never_fired": never,
         "groups": t.groups,
         "groups_compared": t.compared_groups,
         "launches": t.launches,
@@ -728,7 +739,7 @@ pub fn run_main(args: &Args) -> i32 {
     let mut coverage = json!({
         "evaluations": evaluations,
         "distinct_nontrivial": distinct_nontrivial,
-        "rule": "One evaluation = one simulated launch of gram on one file under one plan (entropy key, getrandom delivery faults, layout displacement), compared channel by channel with the reference launch of its group (same command form, file, colour mode). Groups are derived from VERIF_SEED: harvested test-module programs and examples first, then generated families W2-W7. A file counts as non-trivial when its reference launch put at least two diagnostics in flight, or succeeded with output containing a function type, lambda or hole - i.e. something an order dependence could reorder; distinct = distinct file contents (FNV-1a of the bytes) among groups that were actually compared (>= 2 launches, not discarded).",
+        "rule": "One evaluation = one simulated launch of gram on one file under one plan (entropy key, getrandom delivery faults, layout displacement, clock / pid / memory figures, timed-wait scaling, short reads, thread stalls, edit / crash history of the path, a stalled companion launch), compared channel by channel with the reference launch of its group (same command form, file, colour mode). Groups are derived from VERIF_SEED: harvested test-module programs and examples first, then generated families W2-W14. A file counts as non-trivial when its reference launch put at least two diagnostics in flight, or succeeded with output containing a function type, lambda or hole - i.e. something an order dependence could reorder; distinct = distinct file contents (FNV-1a of the bytes) among groups that were actually compared (>= 2 launches, not discarded).",
         "samples": samples,
         "exhaustive": false,
         "totals": totals_json(&totals_all),
@@ -789,8 +800,9 @@ pub fn run_main(args: &Args) -> i32 {
         "level": "exploration",
         "coverage": coverage,
         "assumptions": [
-            "OS entropy reaches the process only through getrandom(2) (std's weak-symbol call); the /dev/urandom fallback is not exercised",
-            "address-space layout is explored in the exec tier only",
+            "OS entropy reaches the process only through getrandom(2) (std's weak-symbol call), AT_RANDOM and the kernel's random devices, all of which the plan owns; ENOSYS from getrandom is not injected",
+            "crash points, overlapping launches, timed waits and interval timers exist in the exec tier only; threads a launch creates are biased (start delays, timed-wait scaling), not serialised",
+            "timed waits, crash points and overlapping launches fire only if the program waits with a time-out or touches durable state: on the unchanged tree gram does neither, so those kinds are listed under fault_kinds_configured_but_never_fired",
             "groups that hit the wall-clock or memory cap are discarded, never judged",
             "sampling, not enumeration: a dependence visible under one key in a million would be missed"
         ],
